@@ -598,6 +598,58 @@ for s in range(nsess):
         ctx.violation("C04:record-appended-behind-torn-tail", "after a writer was killed inside a record and later sessions appended, the file is not header + whole blocks", tag)
 
 
+def stale_pending_duplicate(ctx, probe, work: Path, bufB, lines, impls):
+    """handle A (large buffer) keeps pairs queued after a failed exit flush; handle B then completes a session that stores one
+    of those keys; A's next exit flush must NOT write a second record for it (the completed session's record would be
+    altered): it fails on that pair, releases everything, and the rest of A's queue goes in with A's following session."""
+    from molli.storage import Collection, UkvCollectionBackend
+    path = work / "real" / f"pendingdup{bufB}.ukv"
+    ppath = work / "alias" / ".." / "alias" / f"pendingdup{bufB}.ukv"
+    if path.exists():
+        path.unlink()
+    A = Collection(path, UkvCollectionBackend, readonly=False, bufsize=1_000_000)
+    B = Collection(path, UkvCollectionBackend, readonly=False, bufsize=bufB)
+    steps = [  # (collection, kind, fault, puts, library expected afterwards, may the session raise?)
+        (A, 0, "writing", "none", [("a0", b"x")], {"a0": b"x"}, False),
+        (A, 0, "writing", "atFlush", [("p1", b"1"), ("p2", b"22"), ("p3", b"333")], {"a0": b"x"}, True),
+        (B, 1, "writing", "none", [("p2", b"B-wrote-this")], {"a0": b"x", "p2": b"B-wrote-this"}, False),
+        (A, 0, "writing", "none", [("a1", b"y")], {"a0": b"x", "p2": b"B-wrote-this"}, True),
+        (B, 1, "reading", "none", [], {"a0": b"x", "p2": b"B-wrote-this"}, False),
+        (A, 0, "writing", "none", [], {"a0": b"x", "p2": b"B-wrote-this", "p3": b"333", "a1": b"y"}, False),
+        (B, 1, "reading", "none", [], {"a0": b"x", "p2": b"B-wrote-this", "p3": b"333", "a1": b"y"}, False),
+    ]
+    toks, ops = [], [f"cnew 0 1000000 0 0 -", f"cnew 1 {bufB} 0 0 -"]
+    tag = {"stale_pending_duplicate": {"bufsize_B": bufB}}
+    for n, (col, c, kind, fault, puts, want, may_raise) in enumerate(steps):
+        out = sesslib.run_session(col, kind, fault, puts, cut=0)
+        ans = probe.ask("w", ppath, timeout=8.0)
+        lib = parse_probe(ans)
+        w = "w" if kind == "writing" else "r"
+        ops += [f"begin {c} {w}", f"ckeys {c}"] + [f"cput {c} {hx(k.encode())} {hx(v)} {len(k)}" for k, v in puts]
+        ops += [f"endfault {c}" if fault == "atFlush" else f"end {c}", "probe"]
+        if lib is None:
+            ctx.violation(f"C04:lock-not-released-after-{kind}-session-fault-{fault}",
+                          f"step {n}: a second process could not start a session ({ans}) after a session whose exit flush met a key stored meanwhile by another handle", tag)
+            sesslib.force_cleanup(col)
+            break
+        if out["exc"] is not None and not may_raise:
+            ctx.violation("C04:fault-free-session-raised", f"step {n}: the session ended with {out['exc']}", tag)
+        if lib != want:
+            kind_ = "C04:completed-session-record-lost" if any(lib.get(k) != v for k, v in want.items()) else "C04:unexpected-record-in-library"
+            ctx.violation(kind_, f"step {n}: the library is {dict(sorted(lib.items()))}, the completed sessions wrote {dict(sorted(want.items()))} "
+                                 f"(a record of a completed session was altered by another handle's late flush?)", tag)
+            break
+        toks.append(("keys:" + ",".join(hx(k.encode()) for k in sorted(out["listed"]))) if out["listed"] is not None else "none")
+        toks.append("lib:" + ",".join(f"{hx(k.encode())}={hx(v)}" for k, v in sorted(lib.items())))
+    else:
+        lines.append(";".join(ops))
+        impls.append((toks, [1_000_000, bufB], tag))
+    for col in (A, B):
+        sesslib.force_cleanup(col)
+    ctx.case(f"stale-pending-duplicate:{bufB}", True)
+    ctx.count("stale_pending_duplicate_scripts")
+
+
 def check_history(ctx, path, events, hung, errs, tag):
     """decidable serialisation spec over the merged log (writer sessions: [begin .. done/failed] intervals)"""
     from molli.storage import Collection, UkvCollectionBackend
@@ -720,6 +772,8 @@ def run(ctx):
                     (1, "reading", "none", [], 0),
                     (1, "writing", "none", [("o1", b"")], 1),
                     (0, "reading", "none", [], 0)]))
+        for bufB in (-1, 64, 1_000_000):
+            stale_pending_duplicate(ctx, probe, work, bufB, lines, impls)
         for dn, (bufs, script) in enumerate(directed):
             tag = [[c, k, f, [[a, hx(b) if isinstance(b, bytes) else 'str:' + b] for a, b in p], cut] for c, k, f, p, cut in script]
             run_script(ctx, probe, work / "real" / f"directed{dn}.ukv", bufs, script, tag,
